@@ -493,14 +493,18 @@ THIRD_PASS = {
             "axis-coverage tracking (loop bound vs allocated extent), view-provenance rule"),
     "C02": ("Third pass: the Hamiltonian matrix is read through its basis-managed property by the routine that uses "
             "it (no representation cached on the propagator); propagators and evolutions read the Hamiltonian and the "
-            "frame frequencies under internal units.",
-            "cached-managed-read analysis, internal-units discipline of calculators (lexical block or protected callers)"),
+            "frame frequencies under internal units; every generator component read under a flag was assigned on every "
+            "constructor path that sets the flag (pure dephasing without a relaxation tensor included).",
+            "cached-managed-read analysis, internal-units discipline of calculators (lexical block or protected callers), "
+            "constructor typestate (flag-guarded reads vs constructor paths)"),
     "C03": ("Third pass: the operators handed out do not share storage with arrays the aggregate rewrites in place.",
             "shared-storage (aliasing) analysis"),
     "C05": ("Third pass: bath-function constructors store energy parameters independently of the caller's units, also in "
             "their own loops; every class of quantarhei.qm that keeps a Hamiltonian to compute with reads "
-            "units-converting accessors under internal units.",
-            "unit-state typing of constructor loops, internal-units discipline of calculators"),
+            "units-converting accessors under internal units; a set_X that converts has a get_X that converts back; "
+            "converting functions leave their arguments intact; the array path of the wavelength conversion holds reciprocals.",
+            "unit-state typing of constructor loops, internal-units discipline of calculators, accessor-pair agreement, "
+            "argument-effect rule, allocation element-type rule"),
     "C06": ("Third pass: the Lambda operators are filled for every system state; donor and acceptor arguments of the "
             "Foerster integral carry the donor and acceptor index; rate matrices and the Redfield tensor read the "
             "Hamiltonian, reorganisation energies and Fourier-transformed correlation functions under internal units.",
@@ -509,11 +513,15 @@ THIRD_PASS = {
             "Redfield tensors are calculated under internal units on every way of initialising them.",
             "Taylor recogniser on the two routines, internal-units discipline of calculators"),
     "C08": ("Third pass: direct propagation with pure dephasing derives its factors from the step in force; the "
-            "superoperator, its conversion from the rotating frame and the propagator behind it work under internal units.",
-            "derived-state freshness, internal-units discipline of calculators"),
+            "superoperator, its conversion from the rotating frame and the propagator behind it work under internal units; "
+            "every kind of time argument apply() documents reaches its branch (isinstance members are classes).",
+            "derived-state freshness, internal-units discipline of calculators, isinstance-member resolution"),
     "C09": ("Third pass: the constructors' own loops add energy entries in internal units; running integrals of bath "
-            "functions are taken with respect to their axis (quadrature spacing).",
-            "unit-state typing of constructor loops, quadrature-spacing rule"),
+            "functions are taken with respect to their axis (quadrature spacing); nothing built after the component loop "
+            "uses a value of the last component only; a refused addition leaves the left operand unchanged; every object "
+            "rebuilt from stored parameters is constructed under internal units.",
+            "unit-state typing of constructor loops, quadrature-spacing rule, def-use rule across the component loop, "
+            "refuse-before-mutate ordering rule, taint of stored parameters into constructor calls"),
     "C11": ("Third pass: the frequency axis is shifted by the rotating-frame frequency of the propagated signal.",
             "frame-frequency provenance rule"),
     "C12": ("Third pass: transition dephasing and transition width are sibling look-ups (recorded known finding for the "
@@ -531,6 +539,8 @@ THIRD_PASS = {
     "C19": ("Third pass: reading a view never writes into the storage (ownership states of the accumulators); stored "
             "cells own their arrays and spectra built from a response get copies.",
             "path-sensitive ownership-state analysis, storage-ownership rule"),
+    "C17": ("Third pass: the step exponentials of the propagation matrix are matrix exponentials defined for every rate "
+            "matrix (no diagonalisation).", "provenance rule on the step exponentials"),
     "C20": ("Third pass: the public block helpers hand every rank exactly its block, with and without indices.",
             "finite evaluation of the helpers"),
 }
